@@ -337,3 +337,34 @@ pub fn replay_list(nums: &[u64]) -> String {
     s.push_str(&format!(" {} {}", b as u64, p as u64));
     s
 }
+
+/// C03 T-exh: the numeric constants of the wire format as compiled: every reason/return-code enum
+/// against all 256 byte values, and the fixed-header bytes.
+pub fn write_codes_v(path: &str) {
+    use mqtt::packet::FixedHeader;
+    let mut s = String::new();
+    s.push_str("(* GENERATED on every run by `verif-harness tables` from the compiled crate: for each reason/return code enum\n   (1 ConnectReturnCode 2 ConnectReasonCode 4 Puback 5 Pubrec 6 Pubrel 7 Pubcomp 8 SubackReturnCode 9 SubackReasonCode\n   11 Unsuback 14 Disconnect 15 Auth) the byte values `try_from` accepts, and the fixed-header bytes. *)\n");
+    s.push_str("From MQ Require Import Base.Prelude.\n");
+    s.push_str("Definition observed_codes : list (N * list N) := [\n");
+    macro_rules! row {
+        ($n:expr, $t:ident) => {{
+            let acc: Vec<String> = (0..=255u16).filter(|b| $t::try_from(*b as u8).map(|x| x as u8 == *b as u8).unwrap_or(false)).map(|b| b.to_string()).collect();
+            format!("  ({}, [{}])", $n, acc.join("; "))
+        }};
+    }
+    let rows = vec![
+        row!(1, ConnectReturnCode), row!(2, ConnectReasonCode), row!(4, PubackReasonCode), row!(5, PubrecReasonCode),
+        row!(6, PubrelReasonCode), row!(7, PubcompReasonCode), row!(8, SubackReturnCode), row!(9, SubackReasonCode),
+        row!(11, UnsubackReasonCode), row!(14, DisconnectReasonCode), row!(15, AuthReasonCode),
+    ];
+    s.push_str(&rows.join(";\n"));
+    s.push_str("\n]%N.\n");
+    s.push_str(&format!(
+        "Definition observed_fixed_headers : list N := [{}; {}; {}; {}; {}; {}; {}; {}; {}; {}; {}; {}; {}; {}; {}]%N.\n",
+        FixedHeader::Connect.as_u8(), FixedHeader::Connack.as_u8(), FixedHeader::Publish.as_u8(), FixedHeader::Puback.as_u8(),
+        FixedHeader::Pubrec.as_u8(), FixedHeader::Pubrel.as_u8(), FixedHeader::Pubcomp.as_u8(), FixedHeader::Subscribe.as_u8(),
+        FixedHeader::Suback.as_u8(), FixedHeader::Unsubscribe.as_u8(), FixedHeader::Unsuback.as_u8(), FixedHeader::Pingreq.as_u8(),
+        FixedHeader::Pingresp.as_u8(), FixedHeader::Disconnect.as_u8(), FixedHeader::Auth.as_u8()
+    ));
+    std::fs::write(path, s).unwrap();
+}
